@@ -14,6 +14,9 @@ def trace_demo():
     cases = [dict(seq=[dict(k="ifdef", c="Z"), dict(k="text"), dict(k="else"), dict(k="if", c="1"), dict(k="text"), dict(k="endif"), dict(k="endif"), dict(k="text")])]
     src, _ = checks_cpp.render_cond(cases[0])
     obs = common.run_harness("cpp", [dict(id=0, src=src, file="main.c", defines=["A=1", "B=0"], query=["Z"], incdir=checks_cpp.make_incdir("self"), trace=True)], "self_cpp", nproc=1)
+    if not common.TRACE_HOOK[0] or "events" not in obs[0][0]:
+        print("selftest: event-log hook not available on this tree: CppTrace demonstration skipped")
+        return
     ev = [dict(kind="begin", before="", after="", depth=0, emitted=0, case=0, line=0, first=0)]
     ev += [dict(kind=e["kind"], before=e["before"], after=e["after"], depth=e["depth"], emitted=e["emitted"], case=0, line=e["line"], first=e["first"]) for e in obs[0][0]["events"]]
 
